@@ -7,6 +7,12 @@ CHECKS = {
  "C02": ("intra", "bounded-exhaustive enumeration of intra-picture syntax trees (sizes, CBP x sparsity shapes, every TCOEF event form, INTRADC, DQUANT sequences, stuffing) decoded by the real decoder and compared with an independent reference decoder",
          "Small-scope exhaustive: every picture size up to a bound in three header kinds, every coded-block pattern x sparsity shape, every short/escape event over boundary levels and quantizers, every INTRADC code and position, every DQUANT triple from every PQUANT, stuffing/PEI combinations - each decoded through H263State and compared sample by sample with a naive f64 reference decoder under the rounding-boundary rule.",
          "Reference decoder and VLC tables are transcribed from the Recommendation independently of /repo; scope bounds (size <= 40/80, boundary-value level alphabets) stand for larger pictures.", "3.2"),
+ "C03": ("inter", "bounded-exhaustive enumeration of predicted-picture syntax trees over noise reference pictures (all macroblock-kind assignments, all 64x64 differentials per size class and phase, truncation at every macroblock and byte) against a reference decoder",
+         "Small-scope exhaustive: all 7^n macroblock-kind assignments on five grids, every differential on single-macroblock pictures of each size class (vectors up to 16 samples outside every edge, all half-sample phases, fast and generic fetch path) and on the interior of 48x48 with three residual kinds, truncation after every macroblock and at every byte, prediction without reference, residual clipping - whole pictures compared with the reference decoder.",
+         "Reference pictures are LCG noise so a wrong vector/phase/clamp is visible; scope (<= 9 macroblocks, sizes <= 48) stands for larger pictures.", "3.3"),
+ "C12": ("inter", "exhaustive enumeration of the finite vector domains (64x64 predictor/differential pairs per component, all 253 four-vector sums, all neighbour-kind assignments on 9 grids) through whole decoded P pictures",
+         "Every (predictor, differential) pair per component and jointly, in a first-row pair and in the interior of a 3x3 grid; every possible sum of four luma vectors in three decompositions for both components; every assignment of {INTER, INTER4V, INTRA, not-coded} to the existing neighbours of every target position on nine macroblock grids for INTER and INTER4V targets; every MVD codeword. The decoded picture over a noise reference is compared with the model's prediction.",
+         "Vectors are observed through pixels (noise reference); differentials for prescribed vectors are derived with the model's own predictor, so a model error would show as a false alarm on the unchanged tree, not as silence.", "3.12"),
  "C07": ("yuv", "exhaustive enumeration of the finite input domain (2^24 colours x 8 code positions) against a fixed-point reference model",
          "Every one of the 16,777,216 (Y,Cb,Cr) triples is pushed through yuv420_to_rgba in every SIMD lane and every remainder slot, alone and among contrasting neighbours, and compared with a 16.16 model derived from the real BT.601 constants; the full result table is checked for monotonicity. The domain is finite, so this is a complete decision for the per-pixel formula.",
          "Trusts the model's derivation of the coefficients from the BT.601 reals and the C07 layout argument (7x1 pictures reach lanes 0..3 and remainder slots 0..2).", "3.7"),
